@@ -2,7 +2,7 @@
 """Regenerates MANIFEST.json from the table below (kept in one place so it stays consistent with ./check)."""
 import json, subprocess
 
-BUILT = ["C03", "C04", "C06", "C07", "C08", "C09", "C13", "C14", "C15", "C16"]   # checks that exist and pass on the unchanged tree
+BUILT = ["C03", "C04", "C05", "C06", "C07", "C08", "C09", "C11", "C13", "C14", "C15", "C16"]   # checks that exist and pass on the unchanged tree
 
 CLAIMS = {
  "C03": dict(level="exploration", ref="DESIGN.md §3 C03",
